@@ -338,9 +338,15 @@ func (r Relation) String() string {
 }
 
 func (r Relation) Format(f fmt.State, verb rune) {
-	fu.WriteString(f, "{")
-
 	attrs := r.attrs.GetSorted()
+	for _, a := range attrs {
+		if TupleNameRepr(a) != a {
+			// A relation heading can only spell identifiers: print the tuples in full instead.
+			reprOrderableSet(f, r)
+			return
+		}
+	}
+	fu.WriteString(f, "{")
 	fu.Fprintf(f, "|%s| ", strings.Join(attrs, ", "))
 	projection := r.projectionBasedOnNames(attrs)
 	notFirst := false
